@@ -156,7 +156,7 @@ pub fn classify(acc: &mut Acc, case: &Case, v: &Verdict, mode: Mode) {
             format!("{}-panic:{}:{}", stage, case.field, case.kind),
             detail(json!(null)),
         );
-        acc.outcome("VIOLATION:panic");
+        acc.outcome("oracle-fail:panic");
         return;
     }
     if !v.invariant.is_empty() {
@@ -167,7 +167,7 @@ pub fn classify(acc: &mut Acc, case: &Case, v: &Verdict, mode: Mode) {
             ),
             detail(json!("the store admitted material that breaks the stored-chain invariant")),
         );
-        acc.outcome("VIOLATION:store-invariant");
+        acc.outcome("oracle-fail:store-invariant");
         return;
     }
     if !v.diffs.is_empty() {
@@ -183,7 +183,7 @@ pub fn classify(acc: &mut Acc, case: &Case, v: &Verdict, mode: Mode) {
             format!("{}:{}:{}", stage, case.field, case.kind),
             detail(json!("a different result was accepted as verified")),
         );
-        acc.outcome("VIOLATION:different-result-accepted");
+        acc.outcome("oracle-fail:different-result-accepted");
         return;
     }
     if v.used_sorted_fallback {
@@ -210,7 +210,7 @@ pub fn classify(acc: &mut Acc, case: &Case, v: &Verdict, mode: Mode) {
                     format!("append:{}:{}", case.field, case.kind),
                     detail(json!("a structurally altered chain was accepted in full")),
                 );
-                acc.outcome("VIOLATION:structurally-altered-chain-accepted");
+                acc.outcome("oracle-fail:structurally-altered-chain-accepted");
                 return;
             }
             let k = format!("{}:{}:{}", case.phase, case.field, case.kind);
@@ -227,7 +227,7 @@ pub fn classify(acc: &mut Acc, case: &Case, v: &Verdict, mode: Mode) {
                         "an altered field the statement says is bound was accepted (state unchanged)"
                     )),
                 );
-                acc.outcome("VIOLATION:bound-field-alteration-accepted");
+                acc.outcome("oracle-fail:bound-field-alteration-accepted");
             }
         }
     }
